@@ -80,6 +80,11 @@ func runC20(c *vkit.Ctx, lab *Lab, r *rand.Rand, i int) {
 					}
 					lc.Classes["go-value-that-cannot-be-encoded"] = true
 				}
+				if api == "snap" && r.IntN(3) == 0 {
+					// values of the library's own types handed to MatchSnapshot: values like any other
+					cl.Form = "library-values"
+					lc.Classes["library-matchers-and-configs-as-snapshot-values"] = true
+				}
 				if r.IntN(5) == 0 {
 					// a directory that cannot be created (its parent is a regular file): the write fails,
 					// the call must still end in exactly one outcome (one Error) and be tallied as failed
